@@ -1710,7 +1710,10 @@ def mirror_children(ctx, o):
             if fo is not None and match(f"{s}._Task__children", itx) and \
                     isinstance(tgt.value, ast.Name) and isinstance(fo.target, ast.Name) and tgt.value.id == fo.target.id:
                 ok = True
-                unparent.append(st)
+                # (a round that also takes v out of the list - `self.__children.remove(v); v.__parent = None` - releases v completely:
+                # both ends agree at once, whatever happens later)
+                if not any(isinstance(n, ast.Call) and match(f"{s}._Task__children.remove({fo.target.id})", n) for b in fo.body for n in ast.walk(b)):
+                    unparent.append(st)
                 o.site(f, st, "for v in self.__children: v.__parent = None")
     if not ok:
         o.refute(f, f.node, 'old children unparented', "old children keep pointing to the task as parent")
